@@ -272,6 +272,47 @@ theorem inSepBallMirror_eq {n : Nat} (thr : Rat) (hthr : 0 < thr) (M : EMat n n)
     rw [lhs, rhs]
     exact key
 
+/-- **Eigenvalue form of the ball test.**  `in_separable_ball` applied to a vector of eigenvalues
+`λ` (it builds `diag λ`) accepts iff `Σλ ≥ thr` and `(n − 1) Σλ² ≤ (Σλ)²`. -/
+theorem ball_eig_exact (thr : Rat) (lam : List Rat) :
+    inSepBallEig thr lam = true ↔
+      (thr : ℝ) ≤ ∑ i : Fin lam.length, ((lam.getD i.val 0 : Rat) : ℝ) ∧
+      ((lam.length : ℝ) - 1) * ∑ i : Fin lam.length, ((lam.getD i.val 0 : Rat) : ℝ) ^ 2
+        ≤ (∑ i : Fin lam.length, ((lam.getD i.val 0 : Rat) : ℝ)) ^ 2 := by
+  unfold inSepBallEig inSepBall
+  rw [Bool.and_eq_true, decide_eq_true_eq, decide_eq_true_eq]
+  set D : EMat lam.length lam.length :=
+    EMat.ofFn fun i j => if i = j then QI.ofRat (lam.getD i.val 0) else 0 with hD
+  have h1 : ((trRe D : Rat) : ℝ) = ∑ i : Fin lam.length, ((lam.getD i.val 0 : Rat) : ℝ) := by
+    rw [trRe_cast]
+    simp [Matrix.trace, hD]
+  have h2 : ((frob2 D : Rat) : ℝ) = ∑ i : Fin lam.length, ((lam.getD i.val 0 : Rat) : ℝ) ^ 2 := by
+    rw [frob2_cast]
+    unfold frobSq
+    refine Finset.sum_congr rfl fun i _ => ?_
+    have : ∀ j, Complex.normSq (D.toM i j)
+        = if i = j then ((lam.getD i.val 0 : Rat) : ℝ) ^ 2 else 0 := by
+      intro j
+      by_cases hij : i = j
+      · simp [hD, hij, Complex.normSq_apply, pow_two]
+      · simp [hD, hij]
+    simp_rw [this]
+    simp
+  rw [← h1, ← h2]
+  constructor
+  · rintro ⟨ha, hb⟩
+    refine ⟨by exact_mod_cast ha, ?_⟩
+    have : (((lam.length : Rat) - 1) * frob2 D : Rat) ≤ trRe D * trRe D := hb
+    have h := (Rat.cast_le (K := ℝ)).mpr this
+    push_cast at h
+    rw [pow_two]; exact h
+  · rintro ⟨ha, hb⟩
+    refine ⟨by exact_mod_cast ha, ?_⟩
+    rw [pow_two] at hb
+    have : ((((lam.length : Rat) - 1) * frob2 D : Rat) : ℝ) ≤ ((trRe D * trRe D : Rat) : ℝ) := by
+      push_cast; exact hb
+    exact (Rat.cast_le (K := ℝ)).mp this
+
 /-! ## The hypotheses are satisfiable: concrete instances accepted by the executable checkers -/
 
 section Examples
